@@ -1,0 +1,16 @@
+//go:build verif
+// +build verif
+
+package replication
+
+import "fmt"
+
+// VerifParseGTIDSet exposes the registered GTID set parsers to the
+// verification harness in /verif (build tag verif only).
+func VerifParseGTIDSet(flavor, s string) (GTIDSet, error) {
+	parser := gtidSetParsers[flavor]
+	if parser == nil {
+		return nil, fmt.Errorf("parse error: unknown GTIDSet flavor %#v", flavor)
+	}
+	return parser(s)
+}
